@@ -70,6 +70,22 @@ pub enum Ev {
     /// a soft requirement was registered in its package's tracker
     #[serde(rename = "sreg")]
     SoftRegister(u32),
+    /// a future of the encoder completed and its result is handled now
+    #[serde(rename = "done")]
+    Done(TaskObs),
+}
+/// A unit of work of the encoder (None = root)
+#[derive(Clone, Debug, Serialize, Deserialize, PartialEq, Eq)]
+pub enum TaskObs {
+    #[serde(rename = "dep")]
+    Deps(Option<u32>),
+    #[serde(rename = "cand")]
+    Cands(u32),
+    /// (solvable, is_union, version set / union id)
+    #[serde(rename = "req")]
+    Req(Option<u32>, bool, u32),
+    #[serde(rename = "con")]
+    Con(Option<u32>, u32),
 }
 #[derive(Clone, Debug, Default, Serialize, Deserialize, PartialEq, Eq)]
 pub struct Dump {
@@ -270,6 +286,17 @@ pub fn dump_obs(d: &resolvo::verif::VerifDump, core: Vec<u32>) -> Dump {
             VerifEvent::UndoLast => Ev::UndoLast,
             VerifEvent::Encode(l) => Ev::Encode(l.iter().map(|&x| if x == u32::MAX { None } else { Some(x) }).collect()),
             VerifEvent::SoftRegister(s) => Ev::SoftRegister(*s),
+            VerifEvent::TaskDone(t) => {
+                use resolvo::verif::VerifTask as T;
+                let so = |x: u32| if x == u32::MAX { None } else { Some(x) };
+                Ev::Done(match t {
+                    T::Dependencies(s) => TaskObs::Deps(so(*s)),
+                    T::Candidates(n) => TaskObs::Cands(*n),
+                    T::RequirementSingle(s, v) => TaskObs::Req(so(*s), false, *v),
+                    T::RequirementUnion(s, u) => TaskObs::Req(so(*s), true, *u),
+                    T::Constraint(s, v) => TaskObs::Con(so(*s), *v),
+                })
+            }
         })
         .collect();
     let trail = d.trail.iter().map(|&(x, b, l, r)| (v(x), b, l, r)).collect();
